@@ -126,6 +126,9 @@ def oracle_geometry(spec):
         return (f"total_volume {sp.total_volume} != sum of pixel volumes {tot}", dict(sig, what="total-volume"))
     if sp.scalar_dvol is not None and not np.isscalar(dv):
         return ("scalar_dvol set but dvol is an array", dict(sig, what="scalar-dvol"))
+    if spec["kind"] in ("hp", "gl") and not close(tot, 4 * np.pi, 1e-11):
+        return (f"the pixels of a {spec['kind']} sphere pixelisation have total volume {tot}, not 4 pi",
+                dict(sig, what="sphere-area"))
     if spec["kind"] == "rg":
         cod = sp.get_default_codomain()
         prod = np.array(sp.shape) * np.array(sp.distances) * np.array(cod.distances)
@@ -319,13 +322,14 @@ def run_history_real(hist):
     return objs, cls
 
 
+# which pool entries describe the same domains AS VALUES — stated here, not asked from Domain.__eq__ (which is under test):
+# RGSpace((4,)) has distances 1/4, so entry 1 is entry 0 written differently; all others are pairwise different
+POOL_CANON = {1: 0}
+
+
 def pool_key(p):
-    """canonical description string of a pool entry: equal values <-> equal strings (RGSpace(4) == RGSpace(4, 0.25))"""
-    doms = desc_of(POOL[p])
-    for q in range(p):
-        if desc_of(POOL[q]) == doms:
-            return f"P{q}"
-    return f"P{p}"
+    """canonical description string of a pool entry: equal values <-> equal strings"""
+    return f"P{POOL_CANON.get(p, p)}"
 
 
 def model_history(hist):
@@ -357,9 +361,9 @@ def oracle_identity(case):
     descs = []
     for h, o in zip(hist, objs):
         if "make" in h:
-            descs.append(("t", desc_of(POOL[h["make"]])))
+            descs.append(("t", pool_key(h["make"])))
         elif "makemulti" in h:
-            descs.append(("m", tuple(sorted((k, desc_of(POOL[p])) for k, p in h["makemulti"]))))
+            descs.append(("m", tuple(sorted((k, pool_key(p)) for k, p in h["makemulti"]))))
         else:
             descs.append(descs[h["pickle"]])
     for i in range(len(objs)):
